@@ -22,7 +22,7 @@ func runC01(w *World) {
 	}
 	hc := newHistChecker(w, inst, newModel(), "C01")
 	hc.exact = true
-	w.stepHooks = append(w.stepHooks, hc.stepHook, lockDiscipline(w, inst, "C01"))
+	w.stepHooks = append(w.stepHooks, hc.stepHook, lockDiscipline(w, inst, "C01"), auditHook(w, func() *Inst { return n.inst }, "C01"))
 
 	size := []int{20, 40, 80, 200}[w.knob("size", 4)]
 	if w.tier == "quick" && size > 80 {
